@@ -12,6 +12,9 @@ exactly on / one ulp around a recorded diff).  The recorded diffs are replayed t
 (`C20 fit …`), which predicts iteration count, the `did not converge` line, the statistics flag and the
 complete symbolic content of `logs_`; the symbols are resolved with NumPy (deviance / accuracy recomputed
 from the coefficients entering each iteration) and compared with `gam.logs_`, stdout, `statistics_`, `coef_`.
+`loop.scale` (every run): the same for every class whose distribution scale the user may fix, with a scale other
+than 1 (scale= of the subclasses, a distribution object for GAM; in the units of the response); every configuration
+enables the deviance callback -- the logged value is the unscaled family deviance at the entering coefficients.
 Further streams: constructor table (which arguments reach the base class, defaults), argument binding of
 hooks (every local name of `_pirls`), refits (logs appended), invalid `max_iter`.
 
@@ -293,7 +296,26 @@ def make_model(pygam, desc, cbs, max_iter, tol):
         kw['fit_intercept'] = False
     if cbs is not None:
         kw['callbacks'] = cbs
+    kw.update(scale_kwargs(pygam, desc))
     return getattr(pygam, ctor)(**kw)
+
+
+# families whose scale the user may fix (binomial / Poisson have the constant scale 1)
+SCALE_DISTS = {'normal': 'NormalDist', 'gamma': 'GammaDist', 'inv_gauss': 'InvGaussDist'}
+SCALE_VALUES = [4.0, 0.25, 0.5, 9.0, 0.125, 2.5]      # never 1: a known scale of 1 cannot be told from an unknown one
+
+
+def scale_kwargs(pygam, desc):
+    """constructor arguments of a model with a user-supplied distribution scale (`desc['scale']`, in the units of the
+    family's variance): `scale=` for the subclasses, a distribution object for `GAM`"""
+    sc = desc.get('scale')
+    if sc is None:
+        return {}
+    ctor, dist, _, _ = CLASSES[desc['cls']]
+    if ctor == 'GAM':
+        import pygam.distributions as dm
+        return dict(distribution=getattr(dm, SCALE_DISTS[dist])(scale=sc))
+    return dict(scale=sc)
 
 
 def fit_captured(gam, X, y, w):
@@ -357,6 +379,18 @@ def rel_close(a, b, rtol):
     return abs(a - b) <= rtol * max(1.0, abs(a), abs(b))
 
 
+def dev_close(a, b, rtol, nat):
+    """deviances agree relative to their own size or the size of the constant-fit deviance `nat` (cancellation in
+    y - mu is relative to the data, not to a near-zero deviance) -- no absolute threshold"""
+    a = float(a)
+    b = float(b)
+    if a == b:
+        return True
+    if not (math.isfinite(a) and math.isfinite(b)):
+        return (a != a) and (b != b)
+    return abs(a - b) <= rtol * max(abs(a), abs(b), nat)
+
+
 def jsonable(v):
     if isinstance(v, dict):
         return {k: jsonable(x) for k, x in v.items() if k not in ('gam_id',)}
@@ -391,7 +425,7 @@ def run_config(desc, cfg, rtol=1e-9):
     else:
         # callbacks argument not given: what the class enables by default is read off a fresh object (public
         # parameter); whether that is the documented default is the model's business (table `defaultCallbacks`)
-        base_items = [str(c) for c in getattr(pygam, ctor)(**extra).callbacks]
+        base_items = [str(c) for c in getattr(pygam, ctor)(**dict(extra, **scale_kwargs(pygam, desc))).callbacks]
     has_probe = any((not isinstance(it, str)) and it[1] == 'probe' for it in base_items)
     a_items = base_items if has_probe else base_items + [['user', 'probe', 'probe']]
     probe_name = [it[2] for it in a_items if not isinstance(it, str) and it[1] == 'probe'][0]
@@ -492,14 +526,21 @@ def run_config(desc, cfg, rtol=1e-9):
         if w is not None:
             dev_w.append(float(np.sum(w[mask] * _pointwise_dev(dist, ym, mu_i))))
     rec['dev_exp'] = dev_exp
+    # natural size of a deviance on these data: that of the constant fit (the absolute floor 1.0 of rel_close would make the
+    # comparison vacuous for responses recorded in small units)
+    with np.errstate(all='ignore'):
+        dev_nat = np_deviance(dist, ym, np.full(len(ym), float(np.mean(ym)))) if len(ym) else 0.0
+    dev_nat = dev_nat if math.isfinite(dev_nat) and dev_nat > 0 else 1.0
     rec['acc_exp'] = acc_exp
     rec['coef_in'] = [c.ravel().tolist() for c in c_in]
     rec['coef_final'] = np.asarray(gA.coef_).ravel().tolist()
     if w is not None and k and any(not rel_close(a, b, 1e-6) for a, b in zip(dev_exp, dev_w)):
         rec['quirks'].append(dict(kind='logged deviance is unweighted (the Deviance callback is not given the sample weights)', unweighted=dev_exp[-1], weighted=dev_w[-1]))
     # built-in logs of run A against the oracle's values
-    _oracle_builtin_logs(fail, logsA, a_items, k, dev_exp, acc_exp, c_in, diffs, rtol, run='A', gam=gA)
+    _oracle_builtin_logs(fail, logsA, a_items, k, dev_exp, acc_exp, c_in, diffs, rtol, run='A', gam=gA, dev_nat=dev_nat)
     rec['A'] = observe(gA, outA, probe_name)
+    if desc.get('scale') is not None:
+        rec['scale_seen'] = jsonable(getattr(gA.distribution, 'scale', None))
 
     # ---- run B: exactly the configured callbacks (no probe unless configured) ------------------
     if has_probe and items is not None:
@@ -518,7 +559,7 @@ def run_config(desc, cfg, rtol=1e-9):
         stB = getattr(gB, 'statistics_', None)
         if not isinstance(stB, dict) or not STAT_KEYS.issubset(stB.keys()):
             fail('statistics_ not populated', run='B')
-        _oracle_builtin_logs(fail, logsB, base_items, k, dev_exp, acc_exp, c_in, diffs, rtol, run='B', gam=gB)
+        _oracle_builtin_logs(fail, logsB, base_items, k, dev_exp, acc_exp, c_in, diffs, rtol, run='B', gam=gB, dev_nat=dev_nat)
         rec['B'] = observe(gB, outB, None)
     return rec
 
@@ -540,7 +581,7 @@ def _default_items(desc):
     return ['deviance', 'diffs', 'accuracy'] if CLASSES[desc['cls']][0] == 'LogisticGAM' else ['deviance', 'diffs']
 
 
-def _oracle_builtin_logs(fail, logs, items, k, dev_exp, acc_exp, c_in, diffs, rtol, run, gam=None):
+def _oracle_builtin_logs(fail, logs, items, k, dev_exp, acc_exp, c_in, diffs, rtol, run, gam=None, dev_nat=1.0):
     """each enabled callback has exactly one entry per iteration (per hook) with the right content"""
     want = {}
     for it in items:
@@ -585,9 +626,11 @@ def _oracle_builtin_logs(fail, logs, items, k, dev_exp, acc_exp, c_in, diffs, rt
         for i in range(k):
             for r in range(mult[n]):
                 v = ent[i * mult[n] + r]
-                if n == 'deviance' and not rel_close(v, dev_exp[i], rtol):
+                if n == 'deviance' and not dev_close(v, dev_exp[i], rtol, dev_nat):
                     fail('logged deviance is not the deviance of the coefficients entering the iteration', it=i, logged=float(v), expected=dev_exp[i],
-                         next=dev_exp[i + 1] if i + 1 < k else None, run=run)
+                         next=dev_exp[i + 1] if i + 1 < k else None, run=run,
+                         expected_over_logged=(dev_exp[i] / float(v)) if float(v) else None,
+                         distribution_scale=getattr(getattr(gam, 'distribution', None), 'scale', None))
                 elif n == 'accuracy' and not rel_close(v, acc_exp[i], rtol):
                     fail('logged accuracy is not that of the coefficients entering the iteration', it=i, logged=float(v), expected=acc_exp[i], run=run)
                 elif n == 'coef' and not np.array_equal(np.asarray(v).ravel(), c_in[i].ravel()):
@@ -788,6 +831,20 @@ def group_configs(rng, desc, ref_diffs, lits, n_cfg):
     return cfgs
 
 
+def scale_configs(rng, desc, ref_diffs, lits, n_cfg):
+    """configurations for a model with a user-supplied scale: every one logs the deviance (and most the coefficients
+    it belongs to); the first three are fixed, the rest drawn like the main grid"""
+    kref = len(ref_diffs)
+    fixed = [dict(max_iter=30, tol=f2b(1e-4), items=None, user='default', tolmode='edge'),
+             dict(max_iter=[1, 2, 3, 5][rng.randrange(4)], tol=f2b(1e-4), items=['deviance', 'coef', 'diffs'], user='none', tolmode='edge'),
+             dict(max_iter=min(30, kref + 1), tol=f2b(1e-8), items=['coef', 'deviance', 'deviance'], user='twice', tolmode='edge')]
+    drawn = group_configs(rng, desc, ref_diffs, lits, max(0, n_cfg - len(fixed)))
+    for cfg in drawn:
+        if cfg['items'] is not None and 'deviance' not in cfg['items']:
+            cfg['items'].insert(rng.randint(0, len(cfg['items'])), 'deviance')
+    return (fixed + drawn)[:max(n_cfg, 1)]
+
+
 def run_group(args):
     """worker: one data set / model class; reference run, then the configurations"""
     desc, n_cfg, lits, seed = args
@@ -802,7 +859,7 @@ def run_group(args):
     if ref.get('skipped') or 'diffs' not in ref:
         return out
     ref_diffs = [b2f(b) for b in ref['diffs']]
-    for cfg in group_configs(rng, desc, ref_diffs, lits, n_cfg):
+    for cfg in (scale_configs if desc.get('scale') is not None else group_configs)(rng, desc, ref_diffs, lits, n_cfg):
         rec = run_config(desc, cfg)
         if rec['fails']:
             # re-execute once more with a x10 margin on the float tolerances before anything is reported
@@ -832,6 +889,31 @@ def descs_for(ctx):
     return descs
 
 
+def scale_descs(ctx):
+    """every class whose distribution scale the user may fix (LinearGAM, GammaGAM, InvGaussGAM, ExpectileGAM, GAM with a
+    distribution object), each with a linear term set (design rebuilt with NumPy) and a spline term set, and a scale
+    other than 1 in the units of the response (variance of the normal family: unit^2)"""
+    quick = ctx.tier == 'quick'
+    rng = ctx.subrng('scale-groups')
+    descs = []
+    g = 0
+    for rep in range(1 if quick else 6):
+        for lab in CLASSES:
+            if CLASSES[lab][1] not in SCALE_DISTS:
+                continue
+            for terms in (['lin', 'lin0'][(g + ctx.seed + rep) % 2], ['spl', 'mono'][(g // 2 + ctx.seed + rep) % 2]):
+                d = dict(cls=lab, terms=terms, n=rng.randint(30, 80), weights=rng.choice(WEIGHTS) if rep or terms[0] != 'l' else 'none',
+                         gseed='sc-%d-%d' % (ctx.seed, g))
+                sc = SCALE_VALUES[(g + ctx.seed) % len(SCALE_VALUES)]
+                if CLASSES[lab][1] == 'normal' and CLASSES[lab][2] == 'identity':
+                    d['unit'] = [1.0, 1e-6, 1e3, 1.0, 1e-12, 1e6][(g // 2) % 6]
+                    sc = sc * d['unit'] ** 2
+                d['scale'] = sc
+                descs.append(d)
+                g += 1
+    return descs
+
+
 # --------------------------------------------------------------------------------------------
 # streams
 # --------------------------------------------------------------------------------------------
@@ -848,12 +930,21 @@ def report_record(ctx, st, rec):
     return False
 
 
-def stream_trace(ctx, pool, lits):
-    st = 'loop.trace'
-    ctx.stream(st, 'fits of every model class x callbacks x max_iter x tol: iterations, stdout, statistics_, logs_ (keys, lengths, '
-                   'contents) and coef_ vs the Lean model replayed on the recorded diffs; symbols resolved with NumPy')
-    descs = descs_for(ctx)
-    n_cfg = 24 if ctx.tier == 'quick' else 40
+def stream_trace(ctx, pool, lits, scaled=False):
+    if scaled:
+        st = 'loop.scale'
+        ctx.stream(st, 'the same for models with a user-supplied distribution scale other than 1 (scale= of LinearGAM / GammaGAM / InvGaussGAM / '
+                       'ExpectileGAM, GAM(distribution=NormalDist/GammaDist/InvGaussDist(scale=...))): every configuration logs the deviance, which '
+                       'must be the unscaled NumPy family deviance at the coefficients entering the iteration -- fixing the scale changes the '
+                       'statistics, not the quantity a callback records')
+        descs = scale_descs(ctx)
+        n_cfg = 7 if ctx.tier == 'quick' else 16
+    else:
+        st = 'loop.trace'
+        ctx.stream(st, 'fits of every model class x callbacks x max_iter x tol: iterations, stdout, statistics_, logs_ (keys, lengths, '
+                       'contents) and coef_ vs the Lean model replayed on the recorded diffs; symbols resolved with NumPy')
+        descs = descs_for(ctx)
+        n_cfg = 24 if ctx.tier == 'quick' else 40
     groups = pool.map(run_group, [(d, n_cfg, lits, ctx.seed) for d in descs], chunksize=1)
     ops, index = [], []
     for recs in groups:
@@ -884,10 +975,13 @@ def stream_trace(ctx, pool, lits):
         ctx.count('user callbacks', cfg['user'])
         ctx.count('tol placement', cfg['tolmode'])
         ctx.count('weights', d['weights'])
+        if scaled:
+            ctx.count('user-supplied scale / unit^2', '%s %g' % (CLASSES[d['cls']][0], d['scale'] / d.get('unit', 1.0) ** 2))
+            ctx.count('scale seen on the fitted model', 'the given one' if rec.get('scale_seen') == d['scale'] else 'another: %r' % rec.get('scale_seen'))
         ctx.count('log10(tol)', int(math.floor(math.log10(tol))) if tol > 0 else 'ref(0)')
         items = cfg['items']
         sig = dict(cls=d['cls'], terms=d['terms'], w=d['weights'], run=which, max_iter=cfg['max_iter'], tol=cfg['tol'],
-                   items=json.dumps(items), k=k, printed=obs['printed'], g=d['gseed'])
+                   items=json.dumps(items), k=k, printed=obs['printed'], g=d['gseed'], scale=d.get('scale'))
         ctx.case(st, sig, nontrivial=(cfg['tolmode'] != 'ref'), sample=dict(op=op[:300], model=out[:300], cls=d['cls'], k=k))
         dd = compare_with_model(rec, obs, pred)
         if dd:
@@ -1186,6 +1280,7 @@ def run(ctx):
     guarded(ctx, stream_ctor)
     with multiprocessing.get_context('fork').Pool(min(16, os.cpu_count() or 1)) as pool:
         guarded(ctx, stream_trace, pool, lits)
+        guarded(ctx, stream_trace, pool, lits, True)
     guarded(ctx, stream_refit, lits)
     guarded(ctx, stream_bind)
     guarded(ctx, stream_invalid)
@@ -1205,8 +1300,8 @@ def guarded(ctx, f, *a):
 def replay(ctx, rp):
     """re-execute the single failing case of a replay file (loop.trace), else the whole check"""
     case = rp.get('case') or {}
-    if rp.get('stream') == 'loop.trace' and 'desc' in case and 'cfg' in case:
-        st = 'loop.trace'
+    if rp.get('stream') in ('loop.trace', 'loop.scale') and 'desc' in case and 'cfg' in case:
+        st = rp['stream']
         ctx.stream(st, 'replay of one configuration')
         rec = run_config(case['desc'], case['cfg'])
         ctx.case(st, dict(replay=True), nontrivial=True)
